@@ -174,14 +174,25 @@ def snapshot(top="/"):
     htop = os.fsencode(wp(top))
     cut = len(os.fsencode(W))
 
-    def rec(hp):
-        n = _node(hp)
-        out[fsdec(hp[cut:]) or "/"] = n
+    def rec(hp, depth=0):
+        key = fsdec(hp[cut:]) or "/"
+        try:
+            n = _node(hp)
+        except OSError as e:  # e.g. ENAMETOOLONG below a runaway recursive copy
+            out[key] = Node("?", 0, 0, "errno%d" % e.errno, None, 0, 0, 0, 0)
+            return
+        out[key] = n
         if n.t == "d":
-            with os.scandir(hp) as it:
-                names = sorted(e.name for e in it)
+            if depth > 60:
+                out[key + "/..."] = Node("?", 0, 0, "too deep", None, 0, 0, 0, 0)
+                return
+            try:
+                with os.scandir(hp) as it:
+                    names = sorted(e.name for e in it)
+            except OSError:
+                return
             for nm in names:
-                rec(hp + b"/" + nm)
+                rec(hp + b"/" + nm, depth + 1)
 
     if os.path.lexists(htop):
         rec(htop)
